@@ -12,6 +12,7 @@ CONSTANTS
   DestMode = "normalised"
   CopyMode = "content"
   CollectOrder = "configs-then-denylist"
+  ObserverMode = "copied"
   DenyFactories = {"simple_file", "glob_file", "first_file", "foreach_collect", "simple_command", "command_with_args", "foreach_execute", "container_execute", "container_collect"}
   DenyMax = 3
 INVARIANT DenyRespected
